@@ -171,7 +171,12 @@ pub fn fd_info(fd: i32, world_prefix: &str) -> Option<FdInfo> {
     let path = if kind == libc::S_IFSOCK {
         "socket".to_string() // "socket:[ino]" differs by inode number
     } else {
-        link.strip_prefix(world_prefix).map(|s| s.to_string()).unwrap_or(link)
+        let l = link.strip_prefix(world_prefix).map(|s| s.to_string()).unwrap_or(link);
+        // an unnamed (O_TMPFILE) file shows as "<dir>/#<inode> (deleted)": the inode number differs between the worlds
+        match l.rfind("/#") {
+            Some(i) if l.ends_with(" (deleted)") && l[i + 2..l.len() - 10].bytes().all(|b| b.is_ascii_digit()) => format!("{}/#<unnamed>", &l[..i]),
+            _ => l,
+        }
     };
     let fl = unsafe { libc::fcntl(fd, libc::F_GETFL) };
     let fdfl = unsafe { libc::fcntl(fd, libc::F_GETFD) };
